@@ -74,9 +74,10 @@ THEOREMS = [
         "pooled_counts", "scene_counts_sum", "countTp_sceneFrames_le", "scene_in_unit", "scene_all_one",
         # decision tables of the pairing kernels extracted from the real code (harness/dt_c11.py), regenerated on every run
         "pair_table_check", "pair_code_table_eq_model", "pair_code_table_eq_skel", "pair_code_table_eq_model_on_index",
-        "table_generic_1x1", "table_tlr_1x1",
+        "consistent_1x1", "table_generic_1x1", "table_tlr_1x1",
         # relabelling invariance (lean/PEval/Lemmas/ClassificationSim.lean): the tables speak about ALL inputs of their shapes
-        "pairing_relabelling_invariant", "pairing_index_form", "pair_table_rows_present", "table_pairing_is_model",
+        "pairing_relabelling_invariant", "pairing_index_form", "pair_table_rows_present", "uniqueKeys_consistent",
+        "table_pairing_is_model",
         # label-correct (TP) count vs equal-label count: maximum of the count the metrics use, the FP-label case exactly,
         # uuid-first maximality
         "tp_eq_equal_plus_fp_only", "tp_eq_equal_of_no_fp_label", "tlr_tp_maximum", "tlr_tp_exact",
@@ -130,8 +131,12 @@ ASSUMPTIONS = [
     "winner; the repaired behaviour of C11-N1) -- then, and when results without ground truth differ where the text is silent, the "
     "scores are judged by the oracle alone and the case is a counted skip of the correspondence; null / duplicate uuids (outside "
     "the quantifier): agreement is recorded, any difference is a counted skip. The regenerated decision tables of the pairing "
-    "kernels (theorems pair_table_check ...) still tie the code to the model's list-order greedy algorithm: a tie-order / "
-    "result-order change of the kernels breaks them and is reported without a failing input",
+    "kernels (theorems pair_table_check ...) compare the SET of pairs (result order forgotten; unpaired results of the traffic-light path "
+    "forgotten) on the valuations an input with unique uuids per side and camera can induce (ClassificationDT.pairForb / "
+    "dt_c11.FORB exclude 'one object shares uuid and camera with both objects of the other side'; what the code does there -- "
+    "ValueError of list.remove, a guard, skipping -- is open); among several equally admissible partners they still tie the code "
+    "to the model's list-order choice: a tie-order change of the traffic-light kernel (e.g. ground truths scanned in reverse) "
+    "breaks them and is reported without a failing input",
     "maximality is asserted for the count the metrics use (label-correct pairs: equal labels, or the ground truth carries the FP "
     "label) against every one-to-one same-camera pairing all of whose pairs the rule can form -- label-first: equal label or equal "
     "uuid (Lean RuleAdmissible); uuid-first: equal uuid (there the answer is checked to be exactly the set of same-uuid same-camera "
